@@ -353,6 +353,9 @@ func checkC10(c *Ctx) *orch.Outcome {
 			res := c.R.RunOne(&job)
 			if p.OS != "" {
 				if lg, err := os.ReadFile(filepath.Join(job.Dir, "strace.log")); err == nil {
+					if res.Info == nil {
+						res.Info = map[string]interface{}{}
+					}
 					res.Info["injected"] = float64(strings.Count(string(lg), "(INJECTED)"))
 				}
 			}
